@@ -26,6 +26,9 @@ Toks == {
   T("ident", "ab", "IDENT", "ab"), T("ident-upper", "AB", "IDENT", "AB"), T("ident-dash", "-ab", "IDENT", "-ab"),
   T("ident-hex", "~61 b", "IDENT", "ab"), T("ident-hex6", "~000061b", "IDENT", "ab"), T("ident-simple", "a~gb", "IDENT", "a~gb"),
   T("ident-nonascii", "é1_-", "IDENT", "é1_-"), T("and", "and", "IDENT", "and"),
+  \* a code point beyond the Basic Multilingual Plane is a name character like any other non-ASCII character
+  T("ident-astral", "𐀀x", "IDENT", "𐀀x"), T("hash-astral", "#𐀀", "HASH", "#𐀀"), T("dimension-astral", "1𐀀", "DIMENSION", "1𐀀"),
+  T("uri-astral", "url(𐀀)", "URI", "url(𐀀)"),
   T("function", "f(", "FUNCTION", "f("), T("function-and", "and(", "IDENT+CHAR", "and"),
   T("at-unknown", "@x", "ATKEYWORD", "@x"), T("at-import", "@import", "IMPORT_SYM", "@import"), T("at-import-upper", "@IMPORT", "IMPORT_SYM", "@IMPORT"),
   T("at-media", "@media", "MEDIA_SYM", "@media"), T("at-page", "@page", "PAGE_SYM", "@page"), T("at-font-face", "@font-face", "FONT_FACE_SYM", "@font-face"),
@@ -53,11 +56,12 @@ Toks == {
 
 Seps == {"none", "sp", "tab", "lf", "crlf", "ff", "comment"}
 \* classes of token ids that may glue with a neighbour when written without separator
-NameLike  == {"ident", "ident-upper", "ident-dash", "ident-hex", "ident-hex6", "ident-simple", "ident-nonascii", "and", "at-unknown", "at-import",
+NameLike  == {"ident", "ident-upper", "ident-dash", "ident-hex", "ident-hex6", "ident-simple", "ident-nonascii", "ident-astral", "hash-astral",
+              "dimension-astral", "and", "at-unknown", "at-import",
               "at-import-upper", "at-media", "at-page", "at-font-face", "at-namespace", "at-variables", "at-charset-nospace", "hash",
               "hash-digit", "number", "number-frac", "number-neg", "number-plus", "dimension", "dimension-e", "dimension-neg", "urange",
               "urange-q", "uri-esc", "minus", "hashchar", "atchar", "dot", "plus", "function", "function-and", "percentage"}
-StartsNameLike == NameLike \cup {"uri", "uri-quoted", "uri-upper", "uri-empty", "lparen", "percent", "cdc", "cdo"}
+StartsNameLike == NameLike \cup {"uri", "uri-quoted", "uri-upper", "uri-empty", "uri-astral", "lparen", "percent", "cdc", "cdo"}
 \* a separator is needed unless both neighbours are self-delimiting;  this relation is deliberately conservative:
 \* "none" is allowed only between two tokens that cannot combine
 SelfDelimiting == {"lbrace", "rbrace", "rparen", "lbracket", "rbracket", "semicolon", "colon", "comma", "string-dq", "string-sq", "string-esc",
